@@ -22,6 +22,9 @@ var c15NameSets = []c15NameSet{
 	{"substrings-of-each-other-and-of-IXSCAN", []string{"a", "ab", "b", "E", "IX", "SCAN", "RED", "abc"}},
 	{"hex-and-digit-leading", []string{"0af3", "7e1", "deadbeef", "c1bb", "00", "9", "e2e", "f00d"}},
 	{"long-and-odd", []string{"customerAccountNumber", "customer", "Account", "x_y", "ünï", "with space", "q\"uote", "UPPER"}},
+	// names shaped like the tool's own output: 16 hex digits, the same behind '_' and behind the default / a custom
+	// replacement text (what an earlier pass over the log would have left as field names)
+	{"shaped-like-pseudonyms", []string{"deadbeefdeadbeef", "id_00ff00ff00ff00ff", "REDACTED_0123456789abcdef", "x_0123456789abcdef", "0123456789abcdef", "_00000000000000ff", "REDACTED_fedcba9876543210x", "a_b_0123456789abcdef"}},
 }
 
 type c15PlanForm struct {
@@ -527,7 +530,7 @@ func c15Sequences(c *Ctx) {
 func init() {
 	register(&PropDef{
 		ID: "C15", Level: "exploration",
-		Rule:        "G at 0 deviations (all slots x 4 gates x 6 containers; <=1 non-default production for the distinctive name set) with user field names planted from 4 adversarial pools (distinctive; one-letter names and names that are substrings of each other, of 'IXSCAN' and of 'REDACTED'; hex-looking and digit-leading; long / non-ASCII / with space / with quote) in the positions the property lists (keys of filter / query / update / inserted documents / sort, $match and $sort stages; '$field' references) - positions it does not list ($group / $project / $addFields keys, search paths) draw from a separate pool - x 7 plan summaries (COLLSCAN, IDHACK, IXSCAN single / compound / dotted / several / same name twice) built from the same names x configured prefix vs line namespace {equal, database only, partial, different database, longer than the namespace} x {plain, N+B+replacement}. Oracles, against the output without the flag walked in parallel: listed keys and references hold the component-wise pseudonym of their name (same everywhere), operators and structural keys are unchanged, member count and order kept, every other value identical to the run without the flag, the plan summary equals the input with each index key replaced by its pseudonym, no planted name remains as a key component, reference component or plan-summary token (names of 8+ characters: anywhere), and lines of other namespaces are byte-identical to the run without the flag. distinct = distinct input lines" + "; prefix lists: every ordered list of 1..3 out of 8 prefixes (+3 special lists) x 9 namespaces in-process, every 3rd list (thorough: all) through the CLI; sequences: all sequences of 2..3 lines over a 6-line alphabet (chosen / foreign namespaces with identical plan summaries and names) x 2 flag sets through the CLI against one-line runs",
+		Rule:        "G at 0 deviations (all slots x 4 gates x 6 containers; <=1 non-default production for the distinctive name set) with user field names planted from 5 adversarial pools (shaped like the tool's own pseudonyms; distinctive; one-letter names and names that are substrings of each other, of 'IXSCAN' and of 'REDACTED'; hex-looking and digit-leading; long / non-ASCII / with space / with quote) in the positions the property lists (keys of filter / query / update / inserted documents / sort, $match and $sort stages; '$field' references) - positions it does not list ($group / $project / $addFields keys, search paths) draw from a separate pool - x 7 plan summaries (COLLSCAN, IDHACK, IXSCAN single / compound / dotted / several / same name twice) built from the same names x configured prefix vs line namespace {equal, database only, partial, different database, longer than the namespace} x {plain, N+B+replacement}. Oracles, against the output without the flag walked in parallel: listed keys and references hold the component-wise pseudonym of their name (same everywhere), operators and structural keys are unchanged, member count and order kept, every other value identical to the run without the flag, the plan summary equals the input with each index key replaced by its pseudonym, no planted name remains as a key component, reference component or plan-summary token (names of 8+ characters: anywhere), and lines of other namespaces are byte-identical to the run without the flag. distinct = distinct input lines" + "; prefix lists: every ordered list of 1..3 out of 8 prefixes (+3 special lists) x 9 namespaces in-process, every 3rd list (thorough: all) through the CLI; sequences: all sequences of 2..3 lines over a 6-line alphabet (chosen / foreign namespaces with identical plan summaries and names) x 2 flag sets through the CLI against one-line runs",
 		Assumptions: []string{"the pseudonym function is C13's subject; its value is taken from the tool", "$$ variables and positions the property does not list are don't-care"},
 		Run:         c15Run,
 	})
